@@ -1,5 +1,5 @@
 """Shared rules of the stylesheet-compiler packs (C08, C09, C10, C17, C18, C19)."""
-import re
+import os, re
 import sir
 import cssmodel as cm
 
@@ -151,6 +151,44 @@ def ctx_rule(ctx, prefix):
             okp = okp and any(i_pre < r < i_dis for r in resets)
         obs.append(ob("%s.ctx/%s/whitespace-reemit" % (prefix, role), okp, where, dsc,
                       witness=None if okp else ":not(.a :hover) is emitted as :not(.a:hover)"))
+        # a further local flag in front of the re-emission (e.g. "the previous token was a combinator, the blank means nothing")
+        # is sound only if every arm of the dispatch that writes a token gives the flag a fresh value, and only arms for `,` `>`
+        # `+` `~` raise it: an arm that leaves it alone lets a stale value swallow a descendant combinator
+        if len(emits) == 1:
+            COMB = {("Comma", None), ("Delim", ">"), ("Delim", "+"), ("Delim", "~")}
+            extra = []
+            for kind, subj, pol in G.get(id(emits[0]), []):
+                if kind != "cond":
+                    continue
+                for k_, a_, p_ in gd._conj(subj, pol) if hasattr(gd, "_conj") else [(kind, subj, pol)]:
+                    if k_ == "cond" and a_.get("k") == "path" and len(a_["segs"]) == 1 and a_["segs"][0] != "has_whitespace" and kinds_of_test(a_) is None:
+                        extra.append((a_["segs"][0], p_))
+            for flag, pol in extra:
+                is_flag = any(n.get("k") == "local" and n["pat"].get("name") == flag and n.get("init") is not None and n["init"].get("t") == "bool" for n in sir.walk(d.fn.body))
+                if not is_flag:
+                    obs.append(ob("%s.ctx/%s/whitespace-reemit/extra/%s" % (prefix, role, flag), None, where, "the re-emission also depends on `%s`, which is not a local flag with a constant start value: not decided" % flag))
+                    continue
+                suppress = not pol   # the value of the flag that suppresses the blank
+                bad = []
+                for a in d.arms:
+                    if a.variants == ["WhiteSpace"]:
+                        continue
+                    sets = [n["r"].get("v") for n in sir.walk(a.body) if n.get("k") == "assign" and sir.expr_str(n["l"]) == flag and n["r"].get("t") == "bool"]
+                    cases = a.node["pat"]["cases"] if a.node["pat"].get("k") == "p_or" else [a.node["pat"]]
+                    kinds = set()
+                    for c in cases:
+                        if c.get("k") in ("p_path", "p_ts", "p_struct") and len(c["segs"]) >= 2 and c["segs"][-2] == "Token":
+                            dl = c["elems"][0]["e"].get("v") if c["segs"][-1] == "Delim" and c.get("elems") and c["elems"][0].get("k") == "p_lit" else None
+                            kinds.add((c["segs"][-1], dl))
+                        else:
+                            kinds.add(("_", None))
+                    if not sets:
+                        bad.append("the arm for %s leaves `%s` as it was" % ("|".join(a.variants) or "?", flag))
+                    elif any(v is suppress for v in sets) and not kinds <= COMB:
+                        bad.append("the arm for %s makes the following blank disappear" % "|".join(a.variants))
+                obs.append(ob("%s.ctx/%s/whitespace-reemit/extra/%s" % (prefix, role, flag), not bad, where,
+                              "the blank is also suppressed by `%s`: %s" % (flag, "; ".join(bad[:3]) if bad else "every token-writing arm renews it, only combinator arms raise it"),
+                              witness=None if not bad else "a>[x] b{} is emitted as a>[x]b{}"))
     return obs
 
 
@@ -848,6 +886,12 @@ def class_name_table(ctx, f):
             elif ai.is_unknown(v):
                 kind = "?"
             return [(ai.UNIT, st.event(("emit", kind)))]
+        if e.get("k") == "call":
+            # a predicate of the crate over the token text: both answers are possible inputs, not an unknown of the analysis
+            nm = (sir.call_name(e) or "").split("::")[-1]
+            cs = [g for g in ctx.sc.fns if g.body and g.name == nm and g is not f and (g.ret or "").strip() == "bool" and not any("&mut" in (q.get("ty") or "") for q in g.params)]
+            if len(cs) == 1:
+                return [(ai.FREE, st)]
         return None
     probs = []
     for in_class in (True, False):
@@ -1000,6 +1044,27 @@ def rpx_rules(ctx, prefix):
         arm = d.arm("Dimension") if d.has("Dimension") else None
         ok = arm is not None and "write_maybe_rpx_dimension" in d.calls(arm)
         obs.append(ob("%s.route/%s" % (prefix, role), ok, ctx.where(d.fn), "Dimension tokens of %s are routed through write_maybe_rpx_dimension: %s" % (role, ok)))
+        # .. every one of them: the arms a Dimension can reach, in order, all route it, until one without a guard is reached, and
+        # inside such an arm the call is not under a further condition
+        import guards as gd
+        probs = []
+        closed = False
+        for a in d.arms:
+            if closed or not ("Dimension" in a.variants or "_" in a.variants):
+                continue
+            g_ = a.node.get("guard")
+            routed = "write_maybe_rpx_dimension" in d.calls(a)
+            if not routed:
+                probs.append("a Dimension can reach the arm `%s`, which copies it" % sir.pat_str(a.node["pat"])[:40])
+            else:
+                G_ = gd.guards_of(a.body)
+                for c in sir.walk(a.body):
+                    if c.get("k") in ("call", "mcall") and sir.call_name(c) == "write_maybe_rpx_dimension" and G_.get(id(c)):
+                        probs.append("the conversion routine is called under a condition inside the arm")
+            if g_ is None:
+                closed = True
+        obs.append(ob("%s.route/%s/every" % (prefix, role), not probs, ctx.where(d.fn), "; ".join(probs) if probs else "no guard stands between a Dimension token and the conversion routine",
+                      witness=None if not probs else "[data-w=10rpx]{} keeps 10rpx"))
     for role, why in (("qualified-prelude", "selector preludes hold no lengths outside nested blocks (those go to the class routine)"),):
         d = roles[role]
         obs.append(ob("%s.route/%s" % (prefix, role), True, ctx.where(d.fn), "tabled: %s" % why))
@@ -1107,6 +1172,34 @@ def rpx_rules(ctx, prefix):
     obs.append(ob("%s.expr/ratio-untouched" % prefix, not wr, "lib.rs", "options.rpx_ratio is not rewritten by the transformer: %s" % (wr or "no writers"),
                   witness=None if not wr else "10rpx at ratio 0.5 becomes 1000vw instead of 2000vw"))
     return obs
+
+
+def options_untouched_rule(ctx, prefix):
+    """the options a sheet is compiled with are read-only while it is compiled: no field of the options structure, nor the
+    transformer's `options` field as a whole, is assigned or mutably borrowed (take, replace, mem::take, ..) outside constructors"""
+    ob = ctx.ob
+    oty = None
+    for _m, st in ctx.sc.structs.get("StyleSheetTransformer", []):
+        for fl in st.get("fields", []):
+            if fl.get("name") == "options" and oty is None:
+                oty = re.sub(r"^.*::", "", (fl.get("ty") or "").strip())
+    if not oty:
+        return [ob("%s.options/anchor" % prefix, False, "lib.rs", "the transformer's `options` field was not found")]
+    wr = []
+    n = 0
+    for b in ctx.mir.bodies:
+        if b["crate"] != "glass_easel_stylesheet_compiler":
+            continue
+        n += 1
+        root = b["root"]
+        if root.endswith("::new") or root.endswith("default") or "js_bindings" in root:
+            continue
+        for w in b["writes"]:
+            adt = re.sub(r"^.*::", "", w.get("adt") or "")
+            if (adt == oty) or (adt == "StyleSheetTransformer" and w["field"] == "options"):
+                wr.append("%s %s `%s.%s` (%s)" % (root.split("::")[-1], "assigns" if w["how"] == "assign" else "mutably borrows", adt, w["field"], os.path.basename(w["span"])))
+    return [ob("%s.options/untouched" % prefix, not wr, "lib.rs", "the options are read-only while a sheet is compiled (%d bodies scanned)" % n if not wr else "; ".join(sorted(set(wr))[:3]),
+               witness=None if not wr else ".a{} :host{} .b{} with a class prefix: after the first `:host` rule the prefix is gone")]
 
 
 def _conj(c):
@@ -1846,8 +1939,23 @@ def step_rules(ctx, prefix):
         calls = [sir.expr_str(y)[:60] for y in sir.walk(cm[0]) if y.get("k") in ("mcall", "call")]
         if calls:
             probs.append("the comment branch does more than skip the comment: %s" % calls)
-    return [ob("%s.step/comment-only" % prefix, not probs, ctx.where(f), "; ".join(probs) if probs else "a comment is dropped on its own: the whitespace after it is still delivered to the caller",
-               witness=None if not probs else "`.a/* c */ .b` loses its descendant combinator")]
+    obs = [ob("%s.step/comment-only" % prefix, not probs, ctx.where(f), "; ".join(probs) if probs else "a comment is dropped on its own: the whitespace after it is still delivered to the caller",
+              witness=None if not probs else "`.a/* c */ .b` loses its descendant combinator")]
+    # the tokens handed out are cssparser's own: the step parser builds no token of its own and changes no text
+    built = []
+    for h in sir.reach(sc, f):
+        if not h.body or (h is not f and "step" not in h.module):
+            continue
+        for x in sir.walk(h.body):
+            if x.get("k") == "struct" and len(x.get("segs", [])) >= 2 and x["segs"][-2] == "Token":
+                built.append("%s builds `Token::%s {..}`" % (h.name, x["segs"][-1]))
+            if x.get("k") == "call" and x["f"].get("k") == "path" and len(x["f"]["segs"]) >= 2 and x["f"]["segs"][-2] == "Token" and x["args"]:
+                built.append("%s builds `Token::%s(..)`" % (h.name, x["f"]["segs"][-1]))
+            if x.get("k") == "mcall" and re.search(r"to_(ascii_)?(lower|upper)case|make_ascii_(lower|upper)case|trim|replace", x["m"]):
+                built.append("%s calls `.%s()`" % (h.name, x["m"]))
+    obs.append(ob("%s.step/verbatim" % prefix, not built, ctx.where(f), "; ".join(sorted(set(built))[:3]) if built else "every token is handed out as cssparser produced it",
+                  witness=None if not built else "`1RPX` (a unit that is not rpx) is converted like `1rpx`"))
+    return obs
 
 
 # ------------------------------------------------------------------ C19
